@@ -65,6 +65,13 @@ def build(t):
     from simpleline.render import widgets as W, containers as C
     k = t[0]
     if k == "text":
+        # every fourth text (by length) is handed over as UTF-8 BYTES: the framework accepts both (utils.ensure_str) and must
+        # show the same characters
+        if len(t[1]) % 4 == 3:
+            try:
+                return W.TextWidget(t[1].encode("utf-8"))
+            except UnicodeEncodeError:
+                pass
         return W.TextWidget(t[1])
     if k == "entry":
         return W.EntryWidget(t[1], t[2])
@@ -155,7 +162,7 @@ def rand_tree(rng, depth=2, allow_window=True):
         pat = rng.choice([["", ") ", 1]] * 4 + [None, ["[", "] ", 0], ["", ". ", 5], ["#", " ", 98]])
         return ["list", rng.choice(["row", "col"]), rng.randrange(1, 5),
                 [rand_tree(rng, depth - 1, False) for _ in range(n)],
-                rng.choice([None] * 5 + [6, 12, 20]), rng.choice([3, 3, 0, 1, 5]), pat]
+                rng.choice([None] * 5 + [6, 12, 20, 0]), rng.choice([3, 3, 0, 1, 5]), pat]
     if r < 0.92 or not allow_window:
         return ["column", [[rng.choice([None, 5, 10, 15]), [rand_tree(rng, depth - 1, False) for _ in range(rng.randrange(0, 3))]]
                            for _ in range(rng.randrange(0, 4))], rng.randrange(0, 4)]
